@@ -217,8 +217,9 @@ TABLE = {
         "{drop, move, drop-with-connected-partner} x {read, write}, raw-pointer API probes) with rustc's borrow checker as "
         "oracle; controls guard against vacuous probes"], run=c16_run),
     "C01": spec("exploration", [
-        "unit exponents are read from the two-byte representation of Unit (field order calibrated against the derived "
-        "Debug output), so the oracle does not rely on the crate's own equality code",
+        "unit exponents are read from the in-memory representation of Unit, whose layout (offset, width, sign per exponent) is "
+        "learnt at start-up by probing Unit::new(m, s), so the oracle does not rely on the crate's own equality code (fallback "
+        "if no layout explains the probes: the crate's == against Unit::new; the mode is recorded in the evidence notes)",
         "the table of 49 named constants is cross-checked against src/dimensions/constants.rs at run time; names are "
         "parsed by an independent INVERSE_/PER/SQUARED/CUBED grammar"]),
     "C14": spec("exploration", [
